@@ -10,9 +10,13 @@ FINDERS = {
     "C07": [("chunk_witness", ["c07"])],
     "C08": [("chunk_witness", ["c08"])],
     "C15": [("chunk_witness", ["c15"])],
-    "C19": [("chunk_witness", ["c19"])],
-    "C03": [("chunk_witness", ["c06"]), ("chunk_witness", ["c01"])],
+    "C19": [("chunk_witness", ["c19"]), ("amf0_witness", ["c12"])],
+    "C03": [("chunk_witness", ["c06"]), ("chunk_witness", ["c01"]), ("amf0_witness", ["c14"]), ("msg_witness", [])],
     "C16": [("c16_interleave", [])],
+    "C04": [("amf0_witness", ["c04"])],
+    "C12": [("amf0_witness", ["c12"]), ("amf0_witness", ["c04"])],
+    "C14": [("amf0_witness", ["c14"])],
+    "C13": [("msg_witness", [])],
     "C18": [("chunk_witness", ["c07"]), ("chunk_witness", ["c08"])],
     "C05": [("hs_witness", ["c05"])],
     "C11": [("hs_witness", ["c11"])],
